@@ -153,7 +153,19 @@ def _custom_env(filter_caching):
 
         def __call__(self, key):
             return key
+    class Price(FilterFunction):
+        """a table lookup: whatever built-in error the USER's function raises (KeyError, TypeError) comes out the same way"""
+        arg_types = [ExpressionType.VALUE]
+        return_type = ExpressionType.VALUE
+
+        def __call__(self, v):
+            return {"x": 1, "ab": 2, 1: 3, "a": 4}[v]
+
+    def nth(v):         # a plain callable: IndexError / TypeError from the user's code
+        return [10, 20][v]
     env = JSONPathEnvironment(filter_caching=filter_caching)
+    env.function_extensions["price"] = Price()
+    env.function_extensions["nth"] = nth
     env.function_extensions["cap"] = Cap()
     env.function_extensions["has"] = Has()
     env.function_extensions["pos"] = Pos()
@@ -164,6 +176,7 @@ def _custom_env(filter_caching):
 CUSTOM_QUERIES = [
     ("$..[?@.a == 1 || cap(@.b) == 'X']", None), ("$..[?@.a && cap(@.a) != 'q']", None), ("$..[?cap(@.b) == 'AB' || @.a]", None),
     ("$..[?has('a')]", "$..[?has(@, 'a')]"), ("$..[?!has('b') && @]", "$..[?!has(@, 'b') && @]"), ("$..[?has($.k) || has('c')]", "$..[?has(@, $.k) || has(@, 'c')]"),
+    ("$..[?price(@.b) == 1]", None), ("$..[?@.c || price(@.a) == 3]", None), ("$..[?nth(@.a) == 20]", None), ("$..[?nth(#) == 10 && @]", None),
     ("$..[?pos() == 0 || pos() == 'a']", "$..[?# == 0 || # == 'a']"), ("$..[?pos() != 1 && has('a')]", "$..[?# != 1 && has(@, 'a')]"),
 ]
 
